@@ -21,9 +21,11 @@ SCEN = [
     ("threads_call_call_clear", [(1, {}, [["call", 3]])], [(1, {}, [["threads", [[["call", 3], ["call", 5]], [["clear"], ["call", 4]]]]])], None),
     ("reduce_clear_orphan", [(1, {}, [["call", 3], ["call", 4], ["orphan", "0" * 32, "f" * 32]])], [(1, {}, [["reduce", {"items_limit": 1}]]), (1, {}, [["clear"]])], None),
     ("reduce_reduce_orphan", [(1, {}, [["call", 3], ["call", 4], ["orphan", "0" * 32, "f" * 32]])], [(1, {}, [["reduce", {"items_limit": 0}]]), (1, {}, [["reduce", {"items_limit": 1}]])], None),
+    # cold start: the first call of thread A stores the source itself, so its later calls take the in-memory shortcut
+    ("threads_call_call_clearall", [], [(1, {}, [["threads", [[["call", 3], ["call", 5], ["call", 3]], [["clear_all"]]]]])], None),
     ("clearall_call", [(1, {}, [["call", 3]])], [(1, {}, [["call", 3], ["call", 4]]), (1, {}, [["clear_all"]])], None),
 ]
-QUICK = {"call_call_same_cold", "call_clear_cold", "call_clear_warm", "call_reduce_warm", "shelve_reduce_warm", "call_call_clear", "threads_call_call_clear", "expires_call_reduce", "reduce_clear_orphan", "clearall_call", "call_call_clearall_cold"}
+QUICK = {"call_call_same_cold", "call_clear_cold", "call_clear_warm", "call_reduce_warm", "shelve_reduce_warm", "call_call_clear", "threads_call_call_clear", "expires_call_reduce", "reduce_clear_orphan", "clearall_call", "call_call_clearall_cold", "threads_call_call_clearall"}
 
 
 CODE_TEXTS = {}
@@ -41,12 +43,21 @@ def run_schedule(args):
     rng = random.Random(seed)
     sch = list(sched) if sched is not None else None
 
+    seen = set()
+
     def policy(waiting, step):
+        seen.update(waiting)
         if sch is None:
             return rng.choice(sorted(waiting)), "G"
         while sch:
-            a = sch.pop(0)
-            if a in waiting: return a, "G"
+            a = sch[0]
+            if a in waiting:
+                sch.pop(0); return a, "G"
+            if a in seen:
+                sch.pop(0); continue          # that actor has finished (or waits for another one): its remaining turns are void
+            # an actor that has not shown up yet (a thread not started, a process still importing): somebody else runs, the
+            # turn is kept for it
+            return min(waiting), "G"
         return min(waiting), "G"
     nthreads = sum(len(op[1]) - 1 for v, o, ops in parts for op in ops if op[0] == "threads")
     outs, trace = fsctl.run(root, [spec_of(cdir, k, *p) for k, p in enumerate(parts)], policy, extra_threads=nthreads)
@@ -149,8 +160,9 @@ def body(c):
                 # (threads of one process are actors without a participant entry of their own)
                 destructive = len(parts) <= C or any(op[0] in ("clear", "clear_all", "reduce") for op in parts[C][2])
                 if c.quick and not destructive: continue
+                if len(parts) == 1 and (A == 0 or C == 0): continue      # threads of one process: the main thread only starts and joins them
                 for a in range(0, cnt[A] + 1):
-                    for a2 in (1, 2):
+                    for a2 in ((1,) if c.quick and len(parts) == 1 else (1, 2)):
                         jobs.append((base, sc, sid, [A] * a + [B] * (cnt[B] + 10) + [A] * a2 + [C] * (cnt[C] + 10) + [A] * (cnt[A] + 10), 0)); sid += 1
         for s in range(nrand):
             jobs.append((base, sc, sid, None, c.seed * 1000 + s)); sid += 1
